@@ -33,8 +33,11 @@ Proof.
       apply bind_ok in E. destruct E as [[] [s1 [E1 E]]]. apply guard_ok in E1. destruct E1 as [_ ->].
       apply bind_ok in E. destruct E as [is_ [s1 [E1 E]]]. apply get_ok in E1. destruct E1 as [-> ->].
       apply bind_ok in E. destruct E as [i [s1 [E1 E]]]. apply uniq_ok in E1. destruct E1 as [_ ->].
-      apply bind_ok in E. destruct E as [[] [s1 [E1 E]]]. apply ret_ok in E. destruct E as [_ E]. rewrite <- E in *.
-      destruct (remove_cp_LI g _ _ _ _ (J1_init g) E1) as [_ H]. exact H.
+      apply bind_ok in E. destruct E as [[] [s1 [E0 E]]].
+      apply bind_ok in E. destruct E as [[] [s2 [E1 E]]]. apply ret_ok in E. destruct E as [_ E]. rewrite <- E in *.
+      pose proof (PresJ_disconnect_peers_of g (fun _ => False) i _ _ _ (J4_init g) E0) as [HJ _].
+      destruct HJ as [[C1 [L1 _]] _].
+      destruct (remove_cp_LI g _ _ _ _ (conj C1 L1) E1) as [_ H]. exact H.
 Qed.
 
 (* a fresh look-up of a surviving service / port handle after the operation: the old interfaces that survive *)
@@ -76,7 +79,7 @@ Theorem handles_disconnect ex s i c g cs' g' tr :
   run (exec ex (ODisconnect s i) [c]) g = (inl cs', (g', tr)) ->
   class_of g s = CNS ->
   same c (cpn g s) ->
-  (forall x, get_peers g i = Some [x] -> cpn g x = []) ->
+  (forall x, get_peers_typed g i T_ServicePort = Some [x] -> cpn g x = []) ->
   exists c', cs' = [c'] /\ same c' (cpn g' s).
 Proof.
   intros E Hs Hc Hp. pose proof (frame_exec _ _ _ _ _ _ _ E) as Hg. subst g'.
@@ -87,7 +90,7 @@ Proof.
   unfold disconnect_interface in E.
   apply bind_ok in E. destruct E as [x0 [s0 [E1 E]]]. apply need_node_ok in E1. destruct E1 as [_ ->].
   apply bind_ok in E. destruct E as [p [s0 [E1 E]]]. apply get_ok in E1. destruct E1 as [-> ->].
-  simpl in E. destruct (get_peers g i) as [[|x [|x' l]]|] eqn:Hgp; try discriminate.
+  simpl in E. destruct (get_peers_typed g i T_ServicePort) as [[|x [|x' l]]|] eqn:Hgp; try discriminate.
   - apply ret_ok in E. destruct E as [-> E]. subst s1. apply ret_ok in E2. destruct E2 as [-> E2].
     injection E2 as Eg Et. intros y. rewrite Et, restrict_nil. exact (Hc y).
   - apply bind_ok in E. destruct E as [[] [s2 [E1 E]]]. apply ret_ok in E. destruct E as [-> E]. subst s2.
@@ -95,8 +98,8 @@ Proof.
     destruct (remove_cp_ok g x true _ _ (cons_init g) E1) as [_ [_ H]]. simpl in H.
     assert (Hx0 : cpn g x = []) by (apply Hp; reflexivity).
     assert (Hxc : class_of g x = CCP).
-    { apply (peer_cps_class g (g, []) i x (cons_init g)). simpl. unfold get_peers in Hgp.
-      destruct (peer_cps g i) as [|a [|b l]]; inversion Hgp. left. reflexivity. }
+    { apply (peer_cps_class g (g, []) i x (cons_init g)). simpl.
+      apply (get_peers_typed_In g i T_ServicePort [x] x Hgp). left. reflexivity. }
     assert (Hst : ~ In s tr).
     { intros Hin. apply H in Hin. destruct Hin as [Hin|[]].
       destruct (del_list_classes g (g, []) x s (cons_init g) Hx0 Hin) as [->|Hl]; congruence. }
